@@ -73,13 +73,32 @@ Fixpoint need (v : val) : nat :=
   match v with
   | VList l => S (S ((fix ln (l : list val) : nat :=
                         match l with [] => 1 | x :: xs => S (need x + ln xs) end) l))
+  | VDict kvs => S (S ((fix ld (l : list (val * val)) : nat :=
+                          match l with
+                          | [] => 1
+                          | (k, x) :: r => S (S (S (S (need k + S (need x + 1)))) + ld r)
+                          end) kvs))
   | _ => 1
   end%nat.
 Fixpoint lneed (l : list val) : nat :=
   match l with [] => 1 | x :: xs => S (need x + lneed xs) end%nat.
+Fixpoint dneed (l : list (val * val)) : nat :=
+  match l with
+  | [] => 1
+  | (k, x) :: r => S (S (S (S (need k + S (need x + 1)))) + dneed r)
+  end%nat.
 Lemma need_list : forall l, need (VList l) = S (S (lneed l)).
 Proof.
   intros l. reflexivity.
+Qed.
+Definition entry (kv : val * val) : val := VList [fst kv; snd kv].
+Lemma need_dict : forall kvs, need (VDict kvs) = S (S (lneed (map entry kvs))).
+Proof.
+  intros kvs. change (need (VDict kvs)) with (S (S (dneed kvs))). do 2 f_equal.
+  induction kvs as [| [k x] r IH]; [reflexivity |].
+  change (dneed ((k, x) :: r)) with (S (S (S (S (need k + S (need x + 1)))) + dneed r)).
+  change (lneed (map entry ((k, x) :: r))) with (S (need (VList [k; x]) + lneed (map entry r))).
+  rewrite IH. reflexivity.
 Qed.
 
 (* ------------------------------------------------------------- the first code point of a written value *)
@@ -210,24 +229,21 @@ Definition rd_ok (v : val) : Prop :=
   forall fuel rest inl, stops rest -> (need v <= fuel)%nat ->
   kg_read E C fuel (write E C v ++ rest) true inl = Ok (Some v, rest).
 
-Definition elem_ok (v : val) : Prop := rd_ok v /\ is_dict v = false /\ elem_head (write E C v).
-
-Lemma demote_id : forall x : val, is_dict x = false -> match x with VDict _ => VOpaque 2 | _ => x end = x.
-Proof. intros x H. destruct x; try reflexivity. discriminate. Qed.
+Definition elem_ok (v : val) : Prop := rd_ok v /\ elem_head (write E C v).
 
 Lemma loop_step : forall delim x tail f t2 xs rest,
   (delim = 93 \/ delim = 125) -> elem_ok x -> stops tail -> (need x <= f)%nat ->
   skip E f tail true = Ok t2 -> list_loop E C f t2 delim = Ok (xs, rest) ->
   list_loop E C (S f) (write E C x ++ tail) delim = Ok (x :: xs, rest).
 Proof.
-  intros delim x tail f t2 xs rest Hdel (Hrd & Hnd & Hh) Hs Hle Hsk Hlp.
+  intros delim x tail f t2 xs rest Hdel (Hrd & Hh) Hs Hle Hsk Hlp.
   pose proof (Hrd f tail true Hs Hle) as Hk.
   destruct Hh as (c & r & He & _ & H93 & H125 & _).
   rewrite list_loop_S. rewrite He in Hk |- *. cbn [app] in Hk |- *.
   unfold loop_body.
   assert (Hcd : (c =? delim) = false) by (apply Z.eqb_neq; destruct Hdel as [-> | ->]; assumption).
   rewrite Hcd. cbn [c_list_neg c_reread std_cfg]. rewrite Hk.
-  rewrite (demote_id x Hnd). cbn [andb]. rewrite Hsk, Hlp. reflexivity.
+  cbn [andb]. rewrite Hsk, Hlp. reflexivity.
 Qed.
 
 Lemma join_cons2 : forall sep p q r, join sep (p :: q :: r) = p ++ sep ++ join sep (q :: r).
@@ -266,7 +282,7 @@ Proof.
       apply (loop_step delim x _ f (join [32] (map (write E C) (y :: ys)) ++ delim :: rest) (y :: ys) rest Hdel Hx).
       * reflexivity.
       * lia.
-      * apply skip_blank_lexstart. apply join_head. inversion Hxs as [| ? ? Hy _]. destruct Hy as (_ & _ & Hh). exact Hh.
+      * apply skip_blank_lexstart. apply join_head. inversion Hxs as [| ? ? Hy _]. destruct Hy as (_ & Hh). exact Hh.
       * apply (IH f rest). lia.
 Qed.
 
@@ -279,7 +295,7 @@ Proof.
   - apply list_loop_written; [exact Hdel | exact Hall | lia].
   - destruct l as [| y ys].
     + cbn [map join app]. apply delim_lexstart. exact Hdel.
-    + apply join_head. inversion Hall as [| ? ? Hy _]. destruct Hy as (_ & _ & Hh). exact Hh.
+    + apply join_head. inversion Hall as [| ? ? Hy _]. destruct Hy as (_ & Hh). exact Hh.
 Qed.
 
 Lemma write_list_eq : forall l, write E C (VList l) = 91 :: join [32] (map (write E C) l) ++ [93].
@@ -300,92 +316,10 @@ Proof.
   - cbn. split; [reflexivity | lia].
 Qed.
 
-(* ------------------------------------------------------------- every written value *)
-Lemma wr_true_not_dict : forall v, wr E true v = true -> is_dict v = false.
-Proof. intros v H. destruct v; try reflexivity. cbn in H. discriminate. Qed.
-
-Theorem read_written : forall v inner, wr E inner v = true -> is_dict v = false -> elem_ok v.
-Proof.
-  induction v as [z | r | c | s | s | l IH | kvs IH | k] using val_ind2; intros inner Hw Hnd.
-  - (* integer *)
-    split; [| split; [reflexivity | apply numlex_head; apply numlex_int]].
-    intros fuel rest inl Hr Hf. destruct fuel as [| f]; [cbn in Hf; lia |]. apply kg_read_int. exact Hr.
-  - (* real *)
-    cbn [wr] in Hw.
-    split; [| split; [reflexivity | apply numlex_head; apply numlex_real; apply (fmt_shape E HE); exact Hw]].
-    intros fuel rest inl Hr Hf. destruct fuel as [| f]; [cbn in Hf; lia |]. apply kg_read_real; assumption.
-  - (* character *)
-    split; [| split; [reflexivity |]].
-    + intros fuel rest inl Hr Hf. destruct fuel as [| f]; [cbn in Hf; lia |]. apply kg_read_char.
-    + exists 48, [99; c]. repeat split; try lia.
-  - (* string *)
-    split; [| split; [reflexivity |]].
-    + intros fuel rest inl Hr Hf. destruct fuel as [| f]; [cbn in Hf; lia |].
-      cbn [write c_sopen c_sclose std_cfg app]. rewrite <- app_assoc. cbn [app]. apply kg_read_str. exact Hr.
-    + exists 34, (write_str_body C s ++ [34]). repeat split; try lia.
-  - (* symbol *)
-    cbn [wr] in Hw.
-    split; [| split; [reflexivity |]].
-    + intros fuel rest inl Hr Hf. destruct fuel as [| f]; [cbn in Hf; lia |].
-      cbn [write c_sym_pre std_cfg app]. apply kg_read_sym; assumption.
-    + destruct s as [| c s']; [discriminate |]. cbn [valid_sym] in Hw. apply andb_true_iff in Hw as [Hc _].
-      exists 58, (c :: s'). repeat split; try lia. intros _. exists c, s'. split; [reflexivity |].
-      apply alpha_or_dot_not_quote. exact Hc.
-  - (* list *)
-    cbn [wr] in Hw.
-    assert (Hall : Forall elem_ok l).
-    { rewrite forallb_forall in Hw. rewrite Forall_forall in IH |- *. intros x Hx.
-      apply (IH x Hx true (Hw x Hx)). apply wr_true_not_dict. apply Hw. exact Hx. }
-    split; [apply kg_read_list; exact Hall | split; [reflexivity |]].
-    exists 91, (join [32] (map (write E C) l) ++ [93]). repeat split; try lia.
-  - discriminate.
-  - discriminate.
-Qed.
-
-(* ------------------------------------------------------------- fuel bound *)
-Lemma lneed_bound : forall l,
-  Forall (fun v => (need v <= 2 * length (write E C v) + 1)%nat) l ->
-  (lneed l <= 2 * length (join [32%Z] (map (write E C) l)) + 3)%nat.
-Proof.
-  intros l H. induction H as [| x xs Hx Hxs IH].
-  - cbn. lia.
-  - destruct xs as [| y ys].
-    + cbn [lneed map join]. lia.
-    + cbn [map]. rewrite join_cons2, !app_length. cbn [length]. cbn [map] in IH.
-      change (lneed (x :: y :: ys)) with (S (need x + lneed (y :: ys))). lia.
-Qed.
-
-Lemma need_bound : forall v, (need v <= 2 * length (write E C v) + 1)%nat.
-Proof.
-  induction v as [z | r | c | s | s | l IH | kvs IH | k] using val_ind2; try (cbn [need]; lia).
-  rewrite need_list, write_list_eq. pose proof (lneed_bound l IH) as Hb.
-  cbn [length]. rewrite app_length. cbn [length]. lia.
-Qed.
-
-(* ------------------------------------------------------------- .rs on values that are not dictionaries *)
-Lemma asarray_list_is_list : forall l, exists l', asarray E (VList l) = VList l'.
-Proof.
-  intros l. cbn [asarray].
-  destruct (forallb is_num _).
-  - destruct (existsb is_real _); [| eexists; reflexivity].
-    cbn [rshape length map_leaves]. eexists. reflexivity.
-  - destruct (Nat.eqb _ 1); eexists; reflexivity.
-Qed.
-
-Theorem rs_written_nodict : forall v, writable E v = true -> is_dict v = false ->
-  rs E C (write E C v) = Ok (asarray E v).
-Proof.
-  intros v Hw Hnd. destruct (read_written v false Hw Hnd) as (Hrd & _ & _).
-  unfold rs, kg_read_array. cbn [c_top_neg std_cfg].
-  pose proof (Hrd (rs_fuel (write E C v)) [] false I) as Hk. rewrite app_nil_r in Hk.
-  rewrite Hk by (unfold rs_fuel; pose proof (need_bound v); lia).
-  destruct v as [z | r | c | s | s | l | kvs | k]; try reflexivity.
-  destruct (asarray_list_is_list l) as (l' & ->). reflexivity.
-Qed.
+Lemma list_head : forall l, elem_head (write E C (VList l)).
+Proof. intros l. exists 91, (join [32] (map (write E C) l) ++ [93]). repeat split; try lia. Qed.
 
 (* ------------------------------------------------------------- dictionaries *)
-Definition entry (kv : val * val) : val := VList [fst kv; snd kv].
-
 Lemma write_dict_eq : forall kvs,
   write E C (VDict kvs) = 58 :: 123 :: join [32] (map (write E C) (map entry kvs)) ++ [125].
 Proof.
@@ -428,79 +362,19 @@ Proof.
     + rewrite <- app_assoc. cbn [app]. rewrite map_app. exact Hd.
 Qed.
 
-Theorem rs_written_dict : forall kvs, writable E (VDict kvs) = true ->
-  rs E C (write E C (VDict kvs)) = Ok (VDict kvs).
+Lemma dict_head : forall kvs, elem_head (write E C (VDict kvs)).
 Proof.
-  intros kvs Hw. unfold writable in Hw. cbn [wr negb andb] in Hw.
-  apply andb_true_iff in Hw as [Hent Hdist].
-  rewrite forallb_forall in Hent.
-  assert (Hall : Forall elem_ok (map entry kvs)).
-  { rewrite Forall_forall. intros e He. apply in_map_iff in He as ([k x] & <- & Hin).
-    specialize (Hent (k, x) Hin). cbn beta iota in Hent.
-    apply andb_true_iff in Hent as [Hent Hwx]. apply andb_true_iff in Hent as [Hent Hndx].
-    apply andb_true_iff in Hent as [Hkey Hwk]. apply negb_true_iff in Hndx.
-    assert (Hndk : is_dict k = false) by (destruct k; try reflexivity; discriminate).
-    pose proof (read_written k false Hwk Hndk) as Hk. pose proof (read_written x false Hwx Hndx) as Hx.
-    unfold entry. cbn [fst snd].
-    split; [apply kg_read_list; apply Forall_cons; [exact Hk | apply Forall_cons; [exact Hx | apply Forall_nil]] | split; [reflexivity |]].
-    exists 91, (join [32] (map (write E C) [k; x]) ++ [93]). repeat split; try lia. }
-  assert (Hkeys : forallb (fun kv => is_key (fst kv)) kvs = true).
-  { apply forallb_forall. intros [k x] Hin. specialize (Hent (k, x) Hin). cbn beta iota in Hent.
-    apply andb_true_iff in Hent as [Hent _]. apply andb_true_iff in Hent as [Hent _].
-    apply andb_true_iff in Hent as [Hkey _]. exact Hkey. }
-  unfold rs, kg_read_array. cbn [c_top_neg std_cfg].
-  rewrite write_dict_eq.
-  remember (join [32] (map (write E C) (map entry kvs))) as body eqn:Hbody.
-  assert (Hfuel : exists f, rs_fuel (58 :: 123 :: body ++ [125]) = S f /\ (S (lneed (map entry kvs)) <= f)%nat).
-  { unfold rs_fuel. cbn [length]. rewrite app_length. cbn [length].
-    assert (Hb : (lneed (map entry kvs) <= 2 * length body + 3)%nat).
-    { subst body. apply lneed_bound. rewrite Forall_forall. intros v _. apply need_bound. }
-    exists (2 * (S (S (length body + 1))) + 3)%nat. split; lia. }
-  destruct Hfuel as (f & -> & Hf).
-  rewrite kg_read_S, skip_lexstart by (cbn; split; [reflexivity | intros _; lia]).
-  unfold kg_dispatch.
-  change (existsb (Z.eqb (if 58 =? 10 then 59 else 58)) (c_delims C)) with false.
-  change (58 =? 10) with false. change (58 =? 48) with false. cbv beta iota. cbn [andb].
-  change (is_numeric E 58) with false. change (58 =? 45) with false. change (58 =? 34) with false.
-  change (58 =? 58) with true. cbn [orb andb app]. cbv beta iota.
-  change (is_alpha E 123) with false. change (123 =? 46) with false. change (is_numeric E 123) with false.
-  change (123 =? 34) with false. change (123 =? 123) with true. cbn [orb]. cbv beta iota.
-  subst body.
-  replace (join [32] (map (write E C) (map entry kvs)) ++ [125])
-     with (join [32] (map (write E C) (map entry kvs)) ++ 125 :: []) by reflexivity.
-  rewrite (read_list_written 125 (or_intror eq_refl) (map entry kvs) Hall f [] Hf).
-  rewrite (list_to_dict_entries kvs [] Hkeys Hdist). reflexivity.
+  intros kvs. rewrite write_dict_eq. eexists 58, _. repeat split; try lia.
+  intros _. eexists 123, _. split; [reflexivity | lia].
 Qed.
 
-(* ------------------------------------------------------------- repeated .r on a channel *)
-Lemma kg_read_dict : forall kvs fuel rest inl, writable E (VDict kvs) = true -> stops rest ->
-  (2 * length (write E C (VDict kvs)) + 4 <= fuel)%nat ->
-  kg_read E C fuel (write E C (VDict kvs) ++ rest) true inl = Ok (Some (VDict kvs), rest).
+Lemma kg_read_dict : forall kvs, Forall elem_ok (map entry kvs) ->
+  forallb (fun kv => is_key (fst kv)) kvs = true -> keys_distinct E (map fst kvs) = true ->
+  rd_ok (VDict kvs).
 Proof.
-  intros kvs fuel rest inl Hw Hr Hfuel. unfold writable in Hw. cbn [wr negb andb] in Hw.
-  apply andb_true_iff in Hw as [Hent Hdist].
-  rewrite forallb_forall in Hent.
-  assert (Hall : Forall elem_ok (map entry kvs)).
-  { rewrite Forall_forall. intros e He. apply in_map_iff in He as ([k x] & <- & Hin).
-    specialize (Hent (k, x) Hin). cbn beta iota in Hent.
-    apply andb_true_iff in Hent as [Hent Hwx]. apply andb_true_iff in Hent as [Hent Hndx].
-    apply andb_true_iff in Hent as [Hkey Hwk]. apply negb_true_iff in Hndx.
-    assert (Hndk : is_dict k = false) by (destruct k; try reflexivity; discriminate).
-    pose proof (read_written k false Hwk Hndk) as Hk. pose proof (read_written x false Hwx Hndx) as Hx.
-    unfold entry. cbn [fst snd].
-    split; [apply kg_read_list; apply Forall_cons; [exact Hk | apply Forall_cons; [exact Hx | apply Forall_nil]] | split; [reflexivity |]].
-    exists 91, (join [32] (map (write E C) [k; x]) ++ [93]). repeat split; try lia. }
-  assert (Hkeys : forallb (fun kv => is_key (fst kv)) kvs = true).
-  { apply forallb_forall. intros [k x] Hin. specialize (Hent (k, x) Hin). cbn beta iota in Hent.
-    apply andb_true_iff in Hent as [Hent _]. apply andb_true_iff in Hent as [Hent _].
-    apply andb_true_iff in Hent as [Hkey _]. exact Hkey. }
-  rewrite write_dict_eq in Hfuel |- *.
-  remember (join [32] (map (write E C) (map entry kvs))) as body eqn:Hbody.
-  assert (Hb : (lneed (map entry kvs) <= 2 * length body + 3)%nat).
-  { subst body. apply lneed_bound. rewrite Forall_forall. intros v _. apply need_bound. }
-  cbn [length] in Hfuel. rewrite app_length in Hfuel. cbn [length] in Hfuel.
+  intros kvs Hall Hkeys Hdist fuel rest inl Hr Hf. rewrite need_dict in Hf.
   destruct fuel as [| f]; [lia |].
-  cbn [app]. rewrite <- app_assoc. cbn [app].
+  rewrite write_dict_eq. cbn [app]. rewrite <- app_assoc. cbn [app].
   rewrite kg_read_S, skip_lexstart by (cbn; split; [reflexivity | intros _; lia]).
   unfold kg_dispatch.
   change (existsb (Z.eqb (if 58 =? 10 then 59 else 58)) (c_delims C)) with false.
@@ -509,32 +383,170 @@ Proof.
   change (58 =? 58) with true. cbn [orb andb app]. cbv beta iota.
   change (is_alpha E 123) with false. change (123 =? 46) with false. change (is_numeric E 123) with false.
   change (123 =? 34) with false. change (123 =? 123) with true. cbn [orb]. cbv beta iota.
-  subst body.
   rewrite (read_list_written 125 (or_intror eq_refl) (map entry kvs) Hall f rest) by lia.
   rewrite (list_to_dict_entries kvs [] Hkeys Hdist). reflexivity.
 Qed.
 
-(* any writable value at top level, whatever follows it *)
-Lemma top_read : forall v fuel rest, writable E v = true -> stops rest ->
-  (2 * length (write E C v) + 4 <= fuel)%nat ->
-  kg_read E C fuel (write E C v ++ rest) true false = Ok (Some v, rest).
+(* ------------------------------------------------------------- every written value *)
+Theorem read_written : forall v inner, wr E inner v = true -> elem_ok v.
 Proof.
-  intros v fuel rest Hw Hr Hf. destruct (is_dict v) eqn:Hd.
-  - destruct v; try discriminate. apply kg_read_dict; assumption.
-  - destruct (read_written v false Hw Hd) as (Hrd & _ & _). apply Hrd; [exact Hr |].
-    pose proof (need_bound v). lia.
+  induction v as [z | r | c | s | s | l IH | kvs IH | k] using val_ind2; intros inner Hw.
+  - (* integer *)
+    split; [| apply numlex_head; apply numlex_int].
+    intros fuel rest inl Hr Hf. destruct fuel as [| f]; [cbn in Hf; lia |]. apply kg_read_int. exact Hr.
+  - (* real *)
+    cbn [wr] in Hw.
+    split; [| apply numlex_head; apply numlex_real; apply (fmt_shape E HE); exact Hw].
+    intros fuel rest inl Hr Hf. destruct fuel as [| f]; [cbn in Hf; lia |]. apply kg_read_real; assumption.
+  - (* character *)
+    split.
+    + intros fuel rest inl Hr Hf. destruct fuel as [| f]; [cbn in Hf; lia |]. apply kg_read_char.
+    + exists 48, [99; c]. repeat split; try lia.
+  - (* string *)
+    split.
+    + intros fuel rest inl Hr Hf. destruct fuel as [| f]; [cbn in Hf; lia |].
+      cbn [write c_sopen c_sclose std_cfg app]. rewrite <- app_assoc. cbn [app]. apply kg_read_str. exact Hr.
+    + exists 34, (write_str_body C s ++ [34]). repeat split; try lia.
+  - (* symbol *)
+    cbn [wr] in Hw.
+    split.
+    + intros fuel rest inl Hr Hf. destruct fuel as [| f]; [cbn in Hf; lia |].
+      cbn [write c_sym_pre std_cfg app]. apply kg_read_sym; assumption.
+    + destruct s as [| c s']; [discriminate |]. cbn [valid_sym] in Hw. apply andb_true_iff in Hw as [Hc _].
+      exists 58, (c :: s'). repeat split; try lia. intros _. exists c, s'. split; [reflexivity |].
+      apply alpha_or_dot_not_quote. exact Hc.
+  - (* list *)
+    cbn [wr] in Hw.
+    assert (Hall : Forall elem_ok l).
+    { rewrite forallb_forall in Hw. rewrite Forall_forall in IH |- *. intros x Hx.
+      apply (IH x Hx true (Hw x Hx)). }
+    split; [apply kg_read_list; exact Hall | apply list_head].
+  - (* dictionary, at any depth *)
+    cbn [wr] in Hw. apply andb_true_iff in Hw as [Hent Hdist].
+    rewrite forallb_forall in Hent.
+    assert (Hall : Forall elem_ok (map entry kvs)).
+    { rewrite Forall_forall in IH |- *. intros e He. apply in_map_iff in He as ([k x] & <- & Hin).
+      specialize (Hent (k, x) Hin). cbn beta iota in Hent.
+      apply andb_true_iff in Hent as [Hent Hwx]. apply andb_true_iff in Hent as [Hkey Hwk].
+      destruct (IH (k, x) Hin) as [IHk IHx]. cbn [fst snd] in IHk, IHx.
+      unfold entry. cbn [fst snd].
+      split; [| apply list_head].
+      apply kg_read_list. apply Forall_cons; [exact (IHk false Hwk) | apply Forall_cons; [exact (IHx false Hwx) | apply Forall_nil]]. }
+    assert (Hkeys : forallb (fun kv => is_key (fst kv)) kvs = true).
+    { apply forallb_forall. intros [k x] Hin. specialize (Hent (k, x) Hin). cbn beta iota in Hent.
+      apply andb_true_iff in Hent as [Hent _]. apply andb_true_iff in Hent as [Hkey _]. exact Hkey. }
+    split; [apply kg_read_dict; assumption | apply dict_head].
+  - discriminate.
 Qed.
 
-Lemma skip_space_blanks : forall k t inl, skip_space E (repeat 32 k ++ t) inl = skip_space E t inl.
-Proof. induction k as [| k IH]; intros t inl; [reflexivity |]. cbn [repeat app skip_space].
-  change (is_space E 32) with true. change (32 =? 10) with false. rewrite orb_true_r. cbn [andb]. apply IH. Qed.
+(* ------------------------------------------------------------- fuel bound *)
+Lemma lneed_bound : forall l,
+  Forall (fun v => (need v <= 2 * length (write E C v) + 1)%nat) l ->
+  (lneed l <= 2 * length (join [32%Z] (map (write E C) l)) + 3)%nat.
+Proof.
+  intros l H. induction H as [| x xs Hx Hxs IH].
+  - cbn. lia.
+  - destruct xs as [| y ys].
+    + cbn [lneed map join]. lia.
+    + cbn [map]. rewrite join_cons2, !app_length. cbn [length]. cbn [map] in IH.
+      change (lneed (x :: y :: ys)) with (S (need x + lneed (y :: ys))). lia.
+Qed.
 
-Lemma skip_blanks : forall f k t inl, skip E f (repeat 32 k ++ t) inl = skip E f t inl.
-Proof. intros f k t inl. destruct f; cbn [skip]; rewrite skip_space_blanks; reflexivity. Qed.
+Lemma need_bound_list : forall l,
+  Forall (fun v => (need v <= 2 * length (write E C v) + 1)%nat) l ->
+  (need (VList l) <= 2 * length (write E C (VList l)) + 1)%nat.
+Proof.
+  intros l IH. rewrite need_list, write_list_eq. pose proof (lneed_bound l IH) as Hb.
+  cbn [length]. rewrite app_length. cbn [length]. lia.
+Qed.
 
-Lemma kg_read_blanks : forall fuel k t rn inl,
-  kg_read E C fuel (repeat 32 k ++ t) rn inl = kg_read E C fuel t rn inl.
-Proof. intros fuel k t rn inl. destruct fuel as [| f]; [reflexivity |]. rewrite !kg_read_S, skip_blanks. reflexivity. Qed.
+Lemma need_bound : forall v, (need v <= 2 * length (write E C v) + 1)%nat.
+Proof.
+  induction v as [z | r | c | s | s | l IH | kvs IH | k] using val_ind2; try (cbn [need]; lia).
+  - apply need_bound_list. exact IH.
+  - rewrite need_dict, write_dict_eq.
+    assert (Hb : (lneed (map entry kvs) <= 2 * length (join [32%Z] (map (write E C) (map entry kvs))) + 3)%nat).
+    { apply lneed_bound. rewrite Forall_forall in IH |- *. intros e He.
+      apply in_map_iff in He as ([k x] & <- & Hin). destruct (IH (k, x) Hin) as [Hk Hx]. cbn [fst snd] in Hk, Hx.
+      unfold entry. cbn [fst snd]. apply need_bound_list.
+      apply Forall_cons; [exact Hk | apply Forall_cons; [exact Hx | apply Forall_nil]]. }
+    cbn [length]. rewrite app_length. cbn [length]. lia.
+Qed.
+
+(* ------------------------------------------------------------- .rs *)
+Lemma asarray_list_is_list : forall l, exists l', asarray E (VList l) = VList l'.
+Proof.
+  intros l. cbn [asarray].
+  destruct (forallb is_num _).
+  - destruct (existsb is_real _); [| eexists; reflexivity].
+    cbn [rshape length map_leaves]. eexists. reflexivity.
+  - destruct (Nat.eqb _ 1); eexists; reflexivity.
+Qed.
+
+(* any writable value at top level, whatever follows it *)
+Lemma top_read : forall v fuel rest inl, writable E v = true -> stops rest ->
+  (2 * length (write E C v) + 4 <= fuel)%nat ->
+  kg_read E C fuel (write E C v ++ rest) true inl = Ok (Some v, rest).
+Proof.
+  intros v fuel rest inl Hw Hr Hf. destruct (read_written v false Hw) as (Hrd & _).
+  apply Hrd; [exact Hr |]. pose proof (need_bound v). lia.
+Qed.
+
+Lemma top_read_array : forall v fuel rest inl, writable E v = true -> stops rest ->
+  (2 * length (write E C v) + 4 <= fuel)%nat ->
+  match kg_read_array E C fuel (write E C v ++ rest) true inl with
+  | Ok (q, r) => read_data_object C q = asarray E v /\ r = rest
+  | _ => False
+  end.
+Proof.
+  intros v fuel rest inl Hw Hr Hf. unfold kg_read_array. rewrite (top_read v fuel rest inl Hw Hr Hf).
+  unfold read_data_object. cbn [c_build_nested std_cfg].
+  destruct v as [z | r | c | s | s | l | kvs | k]; split; reflexivity.
+Qed.
+
+Theorem rs_written : forall v inl, writable E v = true -> rs E C inl (write E C v) = Ok (asarray E v).
+Proof.
+  intros v inl Hw. unfold rs. cbn [c_top_neg std_cfg].
+  pose proof (top_read_array v (rs_fuel (write E C v)) [] inl Hw I) as H. rewrite app_nil_r in H.
+  destruct (kg_read_array E C (rs_fuel (write E C v)) (write E C v) true inl) as [[q r] | |].
+  - destruct H as [-> _]; [unfold rs_fuel; lia | reflexivity].
+  - exfalso. apply H. unfold rs_fuel. lia.
+  - exfalso. apply H. unfold rs_fuel. lia.
+Qed.
+
+(* ------------------------------------------------------------- repeated .r on a channel *)
+(* white space between objects: blanks, tabs, line breaks (the reader is called with ignore_newline) *)
+Definition wsc (c : Z) : bool := (c =? 32) || (c =? 10) || (c =? 9).
+Definition wsb (l : list Z) : bool := forallb wsc l.
+
+Lemma wsc_cases : forall c, wsc c = true -> c = 32 \/ c = 10 \/ c = 9.
+Proof. intros c H. unfold wsc in H. repeat (apply orb_true_iff in H as [H | H]); apply Z.eqb_eq in H; auto. Qed.
+
+Lemma skip_space_ws : forall l t, wsb l = true -> skip_space E (l ++ t) true = skip_space E t true.
+Proof.
+  induction l as [| c l IH]; intros t H; [reflexivity |].
+  cbn [wsb forallb] in H. apply andb_true_iff in H as [Hc H].
+  cbn [app skip_space]. destruct (wsc_cases c Hc) as [-> | [-> | ->]]; cbn; apply IH; exact H.
+Qed.
+
+Lemma skip_ws : forall f l t, wsb l = true -> skip E f (l ++ t) true = skip E f t true.
+Proof. intros f l t H. destruct f; cbn [skip]; rewrite (skip_space_ws l t H); reflexivity. Qed.
+
+Lemma kg_read_ws : forall fuel l t rn, wsb l = true ->
+  kg_read E C fuel (l ++ t) rn true = kg_read E C fuel t rn true.
+Proof. intros fuel l t rn H. destruct fuel as [| f]; [reflexivity |]. rewrite !kg_read_S, (skip_ws f l t H). reflexivity. Qed.
+
+Lemma ws_stops : forall l t, wsb l = true -> stops t -> stops (l ++ t).
+Proof.
+  intros [| c l] t H Ht; [exact Ht |]. cbn [wsb forallb] in H. apply andb_true_iff in H as [Hc _].
+  cbn [app stops]. destruct (wsc_cases c Hc) as [-> | [-> | ->]]; reflexivity.
+Qed.
+
+Lemma ws_stops_ne : forall l t, wsb l = true -> l <> [] -> stops (l ++ t).
+Proof.
+  intros [| c l] t H Hne; [congruence |]. cbn [wsb forallb] in H. apply andb_true_iff in H as [Hc _].
+  cbn [app stops]. destruct (wsc_cases c Hc) as [-> | [-> | ->]]; reflexivity.
+Qed.
 
 Lemma asarray_not_none : forall v, writable E v = true -> is_none (asarray E v) = false.
 Proof.
@@ -548,110 +560,95 @@ Proof.
   induction pre as [| c pre IH]; [reflexivity | exact IH].
 Qed.
 
-(* one .r() on a channel positioned before (blanks and) a written value reads exactly that value
+Lemma write_nonempty : forall v, writable E v = true -> exists c r, write E C v = c :: r.
+Proof. intros v Hw. destruct (read_written v false Hw) as (_ & (c & r & He & _)). exists c, r. exact He. Qed.
+
+(* one .r() on a channel positioned before (white space and) a written value reads exactly that value
    and leaves the channel right behind its text *)
-Lemma r_once_written : forall v k tail, writable E v = true -> stops tail ->
-  r_once E C false false (repeat 32 k ++ write E C v ++ tail) = Ok (asarray E v, tail).
+Lemma r_once_written : forall v pre tail, writable E v = true -> wsb pre = true -> stops tail ->
+  r_once E C false false true (pre ++ write E C v ++ tail) = Ok (asarray E v, tail).
 Proof.
-  intros v k tail Hw Hr. unfold r_once.
-  assert (Hne : exists c r, write E C v = c :: r).
-  { destruct (is_dict v) eqn:Hd.
-    - destruct v; try discriminate. rewrite write_dict_eq. eexists. eexists. reflexivity.
-    - destruct (read_written v false Hw Hd) as (_ & _ & (c & r & He & _)). exists c, r. exact He. }
-  remember (repeat 32 k ++ write E C v ++ tail) as txt eqn:Htxt.
-  assert (Hnil : exists c r, txt = c :: r).
-  { subst txt. destruct k; [| eexists; eexists; reflexivity]. destruct Hne as (c & r & ->). eexists. eexists. reflexivity. }
+  intros v pre tail Hw Hpre Hr. unfold r_once.
+  destruct (write_nonempty v Hw) as (c & r & Hne).
+  remember (pre ++ write E C v ++ tail) as txt eqn:Htxt.
+  assert (Hnil : exists c0 r0, txt = c0 :: r0).
+  { subst txt. destruct pre; [| eexists; eexists; reflexivity]. rewrite Hne. eexists. eexists. reflexivity. }
   destruct Hnil as (c0 & r0 & Hc0). rewrite Hc0. rewrite <- Hc0.
-  unfold kg_read_array. cbn [c_top_neg std_cfg].
-  rewrite Htxt at 2. rewrite kg_read_blanks.
-  rewrite (top_read v (rs_fuel txt) tail Hw Hr).
-  - assert (Hi : skipn (length txt - length tail) txt = tail).
-    { subst txt. rewrite !app_assoc. apply skipn_prefix. }
-    destruct v as [z | r | c | s | s | l | kvs | kk]; try discriminate;
-      try (cbn [read_data_object c_build_dict std_cfg]; rewrite Hi; reflexivity).
-    destruct (asarray_list_is_list l) as (l' & Hl'). rewrite Hl'. cbn [read_data_object]. rewrite Hi. reflexivity.
-  - unfold rs_fuel. subst txt. rewrite !app_length. lia.
+  cbn [c_top_neg std_cfg].
+  assert (Hf : (2 * length (write E C v) + 4 <= rs_fuel txt)%nat) by (unfold rs_fuel; subst txt; rewrite !app_length; lia).
+  pose proof (top_read_array v (rs_fuel txt) tail true Hw Hr Hf) as H.
+  unfold kg_read_array in *. rewrite Htxt at 2. rewrite (kg_read_ws _ pre _ _ Hpre).
+  destruct (kg_read E C (rs_fuel txt) (write E C v ++ tail) true true) as [[q rr] | |]; try contradiction.
+  destruct q as [[z | rl | ch | st | sy | l | kvs | k] |]; destruct H as [Hq ->]; rewrite Hq;
+    (assert (Hi : skipn (length txt - length tail) txt = tail) by (subst txt; rewrite !app_assoc; apply skipn_prefix));
+    rewrite Hi; reflexivity.
 Qed.
 
-Fixpoint file_text (k : nat) (vs : list val) : list Z :=
-  match vs with
-  | [] => []
-  | [v] => write E C v
-  | v :: rest => write E C v ++ repeat 32 (S k) ++ file_text k rest
-  end.
-
-Lemma file_text_cons2 : forall k v w rest,
-  file_text k (v :: w :: rest) = write E C v ++ repeat 32 (S k) ++ file_text k (w :: rest).
-Proof. reflexivity. Qed.
-
-Lemma read_all_blanks : forall m n, (0 < n)%nat -> read_all E C false false n (repeat 32 m) = Ok [].
+Lemma read_all_ws : forall l n, wsb l = true -> (0 < n)%nat -> read_all E C false false true n l = Ok [].
 Proof.
-  intros m n Hn. destruct n as [| n]; [lia |]. cbn [read_all]. unfold r_once.
-  destruct m as [| m]; [reflexivity |].
-  cbn [repeat]. change (32 :: repeat 32 m) with (repeat 32 (S m)).
+  intros l n Hl Hn. destruct n as [| n]; [lia |]. cbn [read_all]. unfold r_once.
+  destruct l as [| c l']; [reflexivity |].
   unfold kg_read_array. cbn [c_top_neg std_cfg].
-  rewrite <- (app_nil_r (repeat 32 (S m))) at 2. rewrite kg_read_blanks.
-  assert (Hf : exists f, rs_fuel (repeat 32 (S m)) = S f) by (unfold rs_fuel; eexists; rewrite Nat.add_succ_r; reflexivity).
+  rewrite <- (app_nil_r (c :: l')) at 2. rewrite (kg_read_ws _ (c :: l') [] _ Hl).
+  assert (Hf : exists f, rs_fuel (c :: l') = S f) by (unfold rs_fuel; eexists; rewrite Nat.add_succ_r; reflexivity).
   destruct Hf as (f & ->). rewrite kg_read_S.
-  replace (skip E f [] false) with (Ok (@nil Z)) by (destruct f; reflexivity).
-  cbn [kg_dispatch read_data_object is_none]. reflexivity.
+  replace (skip E f [] true) with (Ok (@nil Z)) by (destruct f; reflexivity).
+  cbn [kg_dispatch]. unfold read_data_object. cbn [c_build_nested std_cfg is_none]. reflexivity.
 Qed.
 
-(* reading a file of written values, separated by k+1 blanks, optionally preceded and followed by blanks:
-   the values come back one per .r, in order, then nothing *)
-Theorem read_all_written : forall k trail vs, Forall (fun v => writable E v = true) vs ->
-  forall n pre, (length vs < n)%nat ->
-  read_all E C false false n (repeat 32 pre ++ file_text k vs ++ repeat 32 trail) = Ok (map (asarray E) vs).
+Definition file_text (sep : list Z) (vs : list val) : list Z := join sep (map (write E C) vs).
+
+(* reading a file of written values, separated by any non-empty white space, optionally preceded and
+   followed by white space: the values come back one per .r, in order, then nothing *)
+Theorem read_all_written : forall sep trail vs, wsb sep = true -> sep <> [] -> wsb trail = true ->
+  Forall (fun v => writable E v = true) vs ->
+  forall n pre, wsb pre = true -> (length vs < n)%nat ->
+  read_all E C false false true n (pre ++ file_text sep vs ++ trail) = Ok (map (asarray E) vs).
 Proof.
-  intros k trail vs Hall. induction Hall as [| v rest Hv Hrest IH]; intros n pre Hn.
-  - cbn [file_text app map]. rewrite <- repeat_app. apply read_all_blanks. lia.
+  intros sep trail vs Hsep Hne Htrail Hall. unfold file_text.
+  induction Hall as [| v rest Hv Hrest IH]; intros n pre Hpre Hn.
+  - cbn [map join app]. apply read_all_ws; [| lia]. unfold wsb in *. rewrite forallb_app, Hpre, Htrail. reflexivity.
   - cbn [length] in Hn. destruct n as [| n]; [lia |]. cbn [map read_all].
     destruct rest as [| w rest'].
-    + cbn [file_text].
-      assert (Hst : stops (repeat 32 trail)) by (destruct trail; reflexivity).
-      rewrite (r_once_written v pre (repeat 32 trail) Hv Hst), (asarray_not_none v Hv).
-      specialize (IH n 0%nat ltac:(cbn [length]; lia)). cbn [file_text app repeat map] in IH.
+    + cbn [map join].
+      assert (Hst : stops trail) by (rewrite <- (app_nil_r trail); apply ws_stops; [exact Htrail | exact I]).
+      rewrite (r_once_written v pre trail Hv Hpre Hst), (asarray_not_none v Hv).
+      specialize (IH n [] eq_refl ltac:(cbn [length]; lia)). cbn [map join app] in IH.
       rewrite IH. reflexivity.
-    + rewrite file_text_cons2. rewrite <- !app_assoc.
-      assert (Hst : stops (repeat 32 (S k) ++ file_text k (w :: rest') ++ repeat 32 trail)) by reflexivity.
-      rewrite (r_once_written v pre _ Hv Hst), (asarray_not_none v Hv).
-      rewrite (IH n (S k) ltac:(cbn [length] in *; lia)). reflexivity.
+    + cbn [map]. rewrite join_cons2. rewrite <- !app_assoc.
+      match goal with |- context [r_once _ _ _ _ _ (pre ++ write E C v ++ ?tl)] =>
+        assert (Hst : stops tl) by (apply ws_stops_ne; assumption);
+        rewrite (r_once_written v pre tl Hv Hpre Hst) end.
+      rewrite (asarray_not_none v Hv).
+      specialize (IH n sep Hsep ltac:(cbn [length] in *; lia)). cbn [map] in IH. rewrite IH. reflexivity.
 Qed.
 
-Lemma write_nonempty : forall v, writable E v = true -> (1 <= length (write E C v))%nat.
+Lemma file_text_length : forall sep vs, Forall (fun v => writable E v = true) vs ->
+  (length vs <= length (file_text sep vs))%nat.
 Proof.
-  intros v Hw. destruct (is_dict v) eqn:Hd.
-  - destruct v; try discriminate. rewrite write_dict_eq. cbn [length]. lia.
-  - destruct (read_written v false Hw Hd) as (_ & _ & (c & r & -> & _)). cbn [length]. lia.
+  intros sep vs Hall. unfold file_text. induction Hall as [| v rest Hv _ IH]; [cbn; lia |].
+  destruct (write_nonempty v Hv) as (c & r & Hne). destruct rest as [| w rest'].
+  - cbn [map join length]. rewrite Hne. cbn [length]. lia.
+  - cbn [map]. rewrite join_cons2, !app_length, Hne. cbn [length map] in *. lia.
 Qed.
 
-Lemma file_text_length : forall k vs, Forall (fun v => writable E v = true) vs ->
-  (length vs <= length (file_text k vs))%nat.
+Theorem read_file_written : forall sep trail vs, wsb sep = true -> sep <> [] -> wsb trail = true ->
+  Forall (fun v => writable E v = true) vs ->
+  read_file E C false false true (file_text sep vs ++ trail) = Ok (map (asarray E) vs).
 Proof.
-  intros k vs Hall. induction Hall as [| v rest Hv _ IH]; [cbn; lia |].
-  pose proof (write_nonempty v Hv). destruct rest as [| w rest'].
-  - cbn [file_text length]. lia.
-  - rewrite file_text_cons2, !app_length. cbn [length] in *. lia.
-Qed.
-
-Theorem read_file_written : forall k trail vs, Forall (fun v => writable E v = true) vs ->
-  read_file E C false false (file_text k vs ++ repeat 32 trail) = Ok (map (asarray E) vs).
-Proof.
-  intros k trail vs Hall. unfold read_file.
-  apply (read_all_written k trail vs Hall _ 0%nat).
-  rewrite app_length. pose proof (file_text_length k vs Hall). lia.
-Qed.
-
-Theorem rs_written : forall v, writable E v = true -> rs E C (write E C v) = Ok (asarray E v).
-Proof.
-  intros v Hw. destruct (is_dict v) eqn:Hd.
-  - destruct v; try discriminate. apply rs_written_dict. exact Hw.
-  - apply rs_written_nodict; assumption.
+  intros sep trail vs Hsep Hne Htrail Hall. unfold read_file.
+  apply (read_all_written sep trail vs Hsep Hne Htrail Hall _ [] eq_refl).
+  rewrite app_length. pose proof (file_text_length sep vs Hall). lia.
 Qed.
 
 End Main.
 
-Lemma read_file_written_cfg : forall E, env_ok E -> forall c ls bo, c = std_cfg -> ls = false -> bo = false ->
-  forall k trail vs, Forall (fun v => writable E v = true) vs ->
-  read_file E c ls bo (file_text E k vs ++ repeat 32 trail) = Ok (map (asarray E) vs).
-Proof. intros E HE c ls bo -> -> ->. apply read_file_written. exact HE. Qed.
+Lemma rs_written_cfg : forall E, env_ok E -> forall c, c = std_cfg -> forall v inl, writable E v = true ->
+  rs E c inl (write E c v) = Ok (asarray E v).
+Proof. intros E HE c -> v inl Hw. apply rs_written; assumption. Qed.
+
+Lemma read_file_written_cfg : forall E, env_ok E -> forall c ls bo inl, c = std_cfg -> ls = false -> bo = false -> inl = true ->
+  forall sep trail vs, wsb sep = true -> sep <> [] -> wsb trail = true ->
+  Forall (fun v => writable E v = true) vs ->
+  read_file E c ls bo inl (file_text E sep vs ++ trail) = Ok (map (asarray E) vs).
+Proof. intros E HE c ls bo inl -> -> -> ->. apply read_file_written. exact HE. Qed.
